@@ -2,8 +2,8 @@
 import ast
 
 from .. import terms as T
-from ..lib import summarise, heap_writes, V, A, normal, raising, cond_str, no_inline, nested_events, loc_attr, calls_named
-from ..symex import SymEx, Valuation, default_policy
+from ..lib import summarise, heap_writes, V, A, normal, raising, cond_str, no_inline, nested_events, loc_attr, calls_named, strip_ndarray
+from ..symex import SymEx, Valuation, default_policy, Undecided
 from ..terms import fmt, ZERO, num
 
 PERF = 'qstrader.statistics.performance.'
@@ -169,6 +169,17 @@ def drawdowns(ctx):
         except Exception:
             hwm = x
     exp = T.t_div(T.t_sub(hwm, x), hwm)
+
+    def numbers_of(t):
+        # the numbers of a series, whatever container holds them: Series(values, index=..., name=...) and arrays of a series are that series
+        def f(z):
+            if z[0] == 'call' and z[1] == ('ext', 'pandas.Series') and len(z[2]) == 1 and all(k in ('index', 'name') for k, _ in z[3]):
+                return z[2][0]
+            return None
+        return strip_ndarray(T.replace(strip_ndarray(t), f))
+    dd_named = dd
+    if not T.teq(dd, exp) and T.teq(numbers_of(dd), numbers_of(exp)):
+        exp = dd
     ctx.require(T.teq(dd, exp), 'C17.S2', 'drawdown = (running maximum - value) / running maximum', fn.site(), fmt(dd)[:200], key='C17.S2|drawdown')
     ctx.require(mx in (C('MAX', dd), M_('max', dd)), 'C17.S2', 'maximum drawdown = max of the drawdown series', fn.site(), fmt(mx)[:160], key='C17.S2|max')
     # duration: longest run of the non-zero indicator of the drawdown series
@@ -193,9 +204,12 @@ def drawdowns(ctx):
     okd = False
     if len(ind) >= 1:
         okd = is_indicator(ind[0])
-    ctx.require(okd, 'C17.S2', 'the under-water indicator is "drawdown != 0" of that same series', fn.site(), fmt(ind[0])[:200] if ind else fmt(dur)[:200], key='C17.S2|indicator')
+    if ind:
+        ctx.require(okd, 'C17.S2', 'the under-water indicator is "drawdown != 0" of that same series', fn.site(), fmt(ind[0])[:200], key='C17.S2|indicator')
+    else:
+        ctx.undecided('C17.S2', 'the under-water indicator is "drawdown != 0" of that same series', fn.site(), 'no 0/1 indicator of the recognised forms: %s' % fmt(dur)[:120])
     grp = [s for s in T.subterms(dur) if s[0] == 'call' and s[1] == ('ext', 'itertools.groupby')]
-    if grp or (dur[0] == 'call' and dur[1] == ('ext', 'MAX')):
+    if grp:
         okg = dur[0] == 'call' and dur[1] == ('ext', 'MAX') and len(grp) == 1 and ind and grp[0][2] == (ind[0],)
         ctx.require(okg, 'C17.S2', 'duration = the longest consecutive run of the indicator (max over groupby runs)', fn.site(), fmt(dur)[:200], key='C17.S2|duration')
         # what is measured per run: only under-water observations count (groupby also yields the runs AT the high-water mark)
@@ -332,9 +346,21 @@ def reporters(ctx):
     # every perf.* call: which series it receives
     table = {'create_drawdowns': ('cum',), 'create_cagr': ('cum', 'periods'), 'create_sharpe_ratio': ('returns', 'periods'), 'create_sortino_ratio': ('returns', 'periods')}
     n = 0
+    def host_helpers(caller, callee, depth):
+        # the reporter's own private steps (a helper that derives the two series and hands them back) are read through; the tabled metric functions stay calls
+        if depth > 3 or callee.name in table or callee.name == 'aggregate_returns':
+            return False
+        if callee.cls is not None:
+            return callee.name.startswith('_') and not callee.name.startswith('__') and callee.cls.name in ('JSONStatistics', 'TearsheetStatistics') and \
+                callee.name in ('_calculate_returns', '_append_returns') or (callee.cls is caller.cls and callee.name.startswith('_') and not callee.name.startswith('__')
+                                                                              and callee.qn not in ('JSONStatistics._calculate_statistics', 'TearsheetStatistics._plot_txt_curve'))
+        return callee.path.startswith('qstrader/statistics/')
     for host in ('JSONStatistics._calculate_statistics', 'TearsheetStatistics.get_results', 'TearsheetStatistics._plot_txt_curve'):
         fn = ctx.fn(host)
-        ps = summarise(ctx, host, policy=no_inline)
+        try:
+            ps = summarise(ctx, host, policy=host_helpers)
+        except Undecided:
+            ps = summarise(ctx, host, policy=no_inline)
         for p in normal(ps):
             for e in p.flat_events():
                 if e.kind != 'call':
@@ -354,7 +380,7 @@ def reporters(ctx):
     ctx.floor('C17.S3', 'perf.* call sites in the reporters', n, 4)
     # the tearsheet's text panel reads its series from the same results dict
     fn = ctx.fn('TearsheetStatistics.get_results')
-    ps = summarise(ctx, fn, policy=no_inline)
+    ps = summarise(ctx, fn, policy=host_helpers)
     for p in normal(ps):
         v = p.value
         if v is None:
@@ -362,17 +388,49 @@ def reporters(ctx):
         want = {'returns': ('sub', V('equity_df'), ('str', 'returns')), 'cum_returns': ('sub', V('equity_df'), ('str', 'cum_returns'))}
         got = {}
         cur = v
-        while cur[0] == 'call' and cur[1] == ('ext', 'SETITEM'):
-            if cur[2][1][0] == 'str':
-                got.setdefault(cur[2][1][1], cur[2][2])
-            cur = cur[2][0]
+        closed = False
+        for _ in range(40):
+            if cur[0] == 'call' and cur[1] == ('ext', 'SETITEM'):
+                if cur[2][1][0] == 'str':
+                    got.setdefault(cur[2][1][1], cur[2][2])
+                cur = cur[2][0]
+            elif cur[0] == 'call' and cur[1] == ('ext', 'UPDATED') and len(cur[2]) <= 2:
+                # d.update(other) / d.update(key=value, ...)
+                for kk, vv in cur[3]:
+                    got.setdefault(kk, vv)
+                if len(cur[2]) == 2 and cur[2][1][0] == 'dict':
+                    for kk, vv in cur[2][1][1]:
+                        if kk is not None and kk[0] == 'str':
+                            got.setdefault(kk[1], vv)
+                elif len(cur[2]) == 2:
+                    break
+                cur = cur[2][0]
+            elif cur[0] == 'call' and cur[1] in (('ext', 'DICT'), ('meth', 'copy')) and len(cur[2]) == 1 and not cur[3]:
+                cur = cur[2][0]
+            else:
+                break
         if cur[0] == 'dict':
+            closed = all(kk is not None for kk, _ in cur[1])
             for kk, vv in cur[1]:
                 if kk is not None and kk[0] == 'str':
                     got.setdefault(kk[1], vv)
+        elif cur[0] == 'comp' and cur[1] == 'dict':
+            closed = True               # a template of keys (dict.fromkeys(names)) filled above
         for k, t in want.items():
             hv = p.heap.get(t, t)
+            if k not in got and not closed:
+                ctx.undecided('C17.S4', "tearsheet results['%s'] is that series" % k, fn.site(), 'the results dict is built in a way this rule does not read: %s' % fmt(v)[:100])
+                continue
             ctx.require(got.get(k) in (t, hv), 'C17.S4', "tearsheet results['%s'] is that series" % k, fn.site(), fmt(got.get(k, ZERO))[:80], key='C17.S4|results|%s' % k)
+        # every call answers with its own dict: a class-level (or instance-level) dict filled in place is one object shared by every report
+        for w in heap_writes(p):
+            if str(w.how).startswith('mut:') or w.loc[0] == 'sub':
+                base = w.loc
+                while base[0] == 'sub':
+                    base = base[1]
+                if base[0] == 'attr' and base[1] == V('self') and any(s_ == base for s_ in T.subterms(v)):
+                    ctx.violation('C17.S4', 'each call of get_results answers with its own results dict', w.site,
+                                  '%s is filled in place and returned: strategy and benchmark reports share (and overwrite) one dict' % fmt(base), key='C17.S4|results|shared')
     # reporters keep no cache: JSONStatistics methods other than the constructor write no attributes
     c = ctx.cls('JSONStatistics')
     for name, m in sorted(c.methods.items()):
